@@ -13,6 +13,7 @@ Import ListNotations.
 
 From Flocq Require Import Core Relative.
 From SK Require Import Proofs.FloatError.
+From SK Require Import Check.FloatKernelCheck Proofs.FloatRefine.
 Theorem C01_l2_optim_is_residual_sum_of_squares : forall (xs : list R) (s e : nat), (s < e <= length xs)%nat -> l2_cost_optim_R (prefix xs) (prefix (sq xs)) s e = rss (slice s e xs).
 Proof. exact @l2_optim_is_rss. Qed.
 
@@ -99,3 +100,33 @@ Print Assumptions C01_float_l2_cost_vs_residual_sum_of_squares.
 Print Assumptions C01_float_l2_cost_within_test_tolerance.
 Print Assumptions C01_float_model_is_binary64_on_normal_range.
 Print Assumptions C01_float_l2_cost_operation_order.
+
+(** ---- added: statements re-derived from the lemma files by tools/append_props.py ---- *)
+Theorem C01_primitive_float_program_refines_rounding_model : forall (l : list PrimFloat.float) (s e : nat), l2_trace_ok l s e = true -> FR (l2_cost_F l s e) = l2_cost_float53 (map FR l) s e.
+Proof. exact @l2_cost_F_refines. Qed.
+
+Theorem C01_primitive_float_cost_within_bound_of_residual_sum_of_squares : forall (l : list PrimFloat.float) (s e : nat), l2_trace_ok l s e = true -> INR e * u53 <= 1 / 100 -> Rabs (FR (l2_cost_F l s e) - rss (slice s e (map FR l))) <= (42 / 10 * INR e + 6) * u53 * l2_scale (map FR l) s e.
+Proof. exact @l2_cost_F_vs_rss. Qed.
+
+Theorem C01_primitive_float_cost_within_test_tolerance : forall (l : list PrimFloat.float) (s e : nat), l2_trace_ok l s e = true -> INR e <= 2000000 -> Rabs (FR (l2_cost_F l s e) - rss (slice s e (map FR l))) <= 1 / 1000000000 * l2_scale (map FR l) s e.
+Proof. exact @l2_cost_F_tolerance. Qed.
+
+Theorem C01_primitive_float_addition_is_binary64_rounding : forall x y : PrimFloat.float, finF x = true -> finF y = true -> finF (PrimFloat.add x y) = true -> FR (PrimFloat.add x y) = rnd_binary64 (FR x + FR y).
+Proof. exact @FR_add. Qed.
+
+Theorem C01_primitive_float_multiplication_is_binary64_rounding : forall x y : PrimFloat.float, finF (PrimFloat.mul x y) = true -> FR (PrimFloat.mul x y) = rnd_binary64 (FR x * FR y).
+Proof. exact @FR_mul. Qed.
+
+Theorem C01_primitive_float_division_is_binary64_rounding : forall x y : PrimFloat.float, FR y <> 0 -> finF (PrimFloat.div x y) = true -> FR (PrimFloat.div x y) = rnd_binary64 (FR x / FR y).
+Proof. exact @FR_div. Qed.
+
+Theorem C01_trace_checker_accepts_ordinary_data : l2_trace_ok demo_xs 1 7 = true.
+Proof. exact @demo_trace_ok. Qed.
+
+Print Assumptions C01_primitive_float_program_refines_rounding_model.
+Print Assumptions C01_primitive_float_cost_within_bound_of_residual_sum_of_squares.
+Print Assumptions C01_primitive_float_cost_within_test_tolerance.
+Print Assumptions C01_primitive_float_addition_is_binary64_rounding.
+Print Assumptions C01_primitive_float_multiplication_is_binary64_rounding.
+Print Assumptions C01_primitive_float_division_is_binary64_rounding.
+Print Assumptions C01_trace_checker_accepts_ordinary_data.
